@@ -30,7 +30,8 @@ TIERS = {
     "quick": {"runs": 6000, "chunk": 100, "selftest": 64, "minimise_s": 30},
     "thorough": {"budget_s": 600, "chunk": 400, "selftest": 512, "minimise_s": 90},
 }
-PROBES = ["set_with_fault", "dict_key_fault", "required_field_excluded", "typed_addition_fault", "varargs_fault"]
+PROBES = ["set_with_fault", "dict_key_fault", "required_field_excluded", "typed_addition_fault", "varargs_fault",
+          "rule_leaf_fault", "length_bound_after_exclusion", "mode_required_field"]
 POL = ["throw", "exclude", "preserve"]
 FAIL = object()
 
@@ -49,21 +50,29 @@ def generate(rng, tier):
         for k in plan["policies"]:
             if rng.random() < 0.7:
                 plan["policies"][k] = rng.choice(["exclude", "preserve"])
+    RL = rng.random() < 0.5     # constrained (Rule) leaf types in this plan
     if kind == "rule":
-        t = tdsl.gen_container(rng, rng.choice([1, 1, 1, 2, 2, 3]))
+        t = tdsl.gen_container(rng, rng.choice([1, 1, 1, 2, 2, 3]), rule_leaves=RL)
         plan["type"] = t
         plan["input"] = tdsl.gen_value(rng, t, pool, positions)
+        if rng.random() < 0.3:
+            plan["max_len"] = rng.choice([1, 2, 3])
     elif kind in ("schema", "dataclass"):
         fields = []
         inp = {}
+        plan["mode"] = rng.choice([None, None, "a", "b"])
         for i in range(rng.choice([1, 2, 2, 3, 4])):
-            t = tdsl.gen_scalar(rng) if rng.random() < 0.55 else tdsl.gen_container(rng, rng.choice([1, 1, 2]))
+            t = tdsl.gen_scalar(rng, rule_leaves=RL) if rng.random() < 0.55 else tdsl.gen_container(rng, rng.choice([1, 1, 2]), rule_leaves=RL)
             required = rng.random() < 0.5
             f = {"name": "f%d" % i, "type": t, "required": required,
                  "default": None if required else rng.choice(["absent", "none", "leaf"]),
                  "on_error": rng.choice([None, None, "exclude", "preserve", "throw"])}
-            if required and f["on_error"] == "exclude":
+            if not required and f["default"] == "absent" and rng.random() < 0.4:
+                f["required"] = "mode"     # Field(required='a'): required only when the parse runs in mode 'a'
+            if f["required"] and f["on_error"] == "exclude":
                 f["on_error"] = None   # rejected at declaration time by Field()
+            if not tdsl.is_scalar(t) and rng.random() < 0.3:
+                f["max_len"] = rng.choice([1, 2, 3])
             fields.append(f)
             inp[f["name"]] = tdsl.gen_value(rng, t, pool, positions, (f["name"],))
         plan["fields"] = fields
@@ -111,6 +120,9 @@ def build(plan, strict=False):
     kind = plan["kind"]
     if kind == "rule":
         T = tdsl.rule_type(plan["type"])
+        if plan.get("max_len"):
+            from utype import Rule
+            T = Rule.parse_annotation(annotation=tdsl.build_type(plan["type"]), constraints={"max_length": plan["max_len"]})
         opts = _strict_options() if strict else _options(plan)
         return lambda v: utype.type_transform(v, T, options=opts)
     if kind in ("schema", "dataclass"):
@@ -119,7 +131,11 @@ def build(plan, strict=False):
             T = tdsl.build_type(f["type"])
             ns["__annotations__"][f["name"]] = T
             kw = {}
-            if not f["required"]:
+            if f.get("max_len"):
+                kw["max_length"] = f["max_len"]
+            if f["required"] == "mode":
+                kw["required"] = "a"
+            elif not f["required"]:
                 if f["default"] == "absent":
                     kw["required"] = False
                 elif f["default"] == "none":
@@ -132,6 +148,8 @@ def build(plan, strict=False):
                 ns[f["name"]] = Field(**kw)
         add = plan.get("addition")
         okw = {}
+        if plan.get("mode"):
+            okw["mode"] = plan["mode"]
         if add is not None:
             okw["addition"] = faults.Leaf if add == "leaf" else add
         opts = _strict_options(**okw) if strict else _options(plan, **okw)
@@ -219,7 +237,10 @@ def ref(t, v, pol):
 def ref_plan(plan, value, pol, stats):
     kind = plan["kind"]
     if kind == "rule":
-        return ref(plan["type"], value, pol)
+        r = ref(plan["type"], value, pol)
+        if r is not FAIL and plan.get("max_len") and len(r) > plan["max_len"]:
+            return FAIL     # the bound applies to what is left after the policies did their work
+        return r
     if kind in ("schema", "dataclass"):
         out = {}
         for f in plan["fields"]:
@@ -227,10 +248,12 @@ def ref_plan(plan, value, pol, stats):
             if name not in value:
                 continue
             r = ref(f["type"], value[name], pol)
+            if r is not FAIL and f.get("max_len") and len(r) > f["max_len"]:
+                r = FAIL
             if r is FAIL:
                 p = f["on_error"] or pol["invalid_values"]
                 if p == "exclude":
-                    if f["required"]:
+                    if f["required"] is True or (f["required"] == "mode" and plan.get("mode") == "a"):
                         stats["probe:required_field_excluded"] += 1
                         return FAIL
                     if f["default"] == "absent":
@@ -380,9 +403,11 @@ def execute(plan):
     try:
         got0 = _observe(parse(_value_of(plan)), plan)
     except Exception as e:  # noqa
-        raise kernel.HarnessError(f"C11 control run rejected a fault-free input: {type(e).__name__}: {e} plan={kernel.jdump(plan)}")
-    if exp0 is FAIL or _canon(got0) != _canon(exp0):
-        raise kernel.HarnessError(f"C11 control mismatch: got {_canon(got0)} expected {_canon(exp0) if exp0 is not FAIL else 'FAIL'}")
+        if exp0 is not FAIL or not isinstance(e, ParseError):
+            raise kernel.HarnessError(f"C11 control run rejected a fault-free input: {type(e).__name__}: {e} plan={kernel.jdump(plan)}")
+        got0 = FAIL     # over a declared length bound even without faults: rejected, as the reference says
+    if (exp0 is FAIL) != (got0 is FAIL) or (exp0 is not FAIL and _canon(got0) != _canon(exp0)):
+        raise kernel.HarnessError(f"C11 control mismatch: got {_canon(got0) if got0 is not FAIL else 'FAIL'} expected {_canon(exp0) if exp0 is not FAIL else 'FAIL'}")
     res.ev("control", "ok")
 
     faults.reset()
@@ -407,6 +432,12 @@ def execute(plan):
         res.stats["probe:set_with_fault"] += 1
     if "dict.key" in kinds and fired:
         res.stats["probe:dict_key_fault"] += 1
+    if fired and ("rleaf" in kernel.jdump(plan.get("type") or plan.get("fields") or "") or "rkey" in kernel.jdump(plan.get("type") or plan.get("fields") or "")):
+        res.stats["probe:rule_leaf_fault"] += 1
+    if fired and (plan.get("max_len") or any(f.get("max_len") for f in plan.get("fields", []))) and "exclude" in pols:
+        res.stats["probe:length_bound_after_exclusion"] += 1
+    if fired and plan.get("mode") == "a" and any(f["required"] == "mode" for f in plan.get("fields", [])):
+        res.stats["probe:mode_required_field"] += 1
 
     if outcome[0] == "raw":
         res.violate(f"C11|{plan['kind']}|{kinds}|{pols}|raw:{outcome[1]}",
